@@ -203,6 +203,8 @@ pub(crate) fn list_len(bound: usize) -> usize {
     n
 }
 
+pub(crate) fn spin_nop() {}
+
 fn any_in_use() -> usize {
     match nd::below(3) {
         0 => NODE_UNUSED,
@@ -225,8 +227,9 @@ fn claimable(in_use: usize, writers: usize) -> bool {
 //            old head.
 // frame:     other nodes: in_use changes only COOLDOWN -> UNUSED and only with no active writer;
 //            active_writers and all slots untouched.
-// @harness name=l1_node_get props=C11,C10,C13,C02,C17,C01 tier=quick flavour=nostd fn=Node::get+Node::check_cooldown+Node::traverse
+// @harness name=l1_node_get props=C11,C10,C13,C02,C17,C01,C09 tier=quick flavour=nostd fn=Node::get+Node::check_cooldown+Node::traverse
 #[cfg_attr(kani, kani::proof)]
+#[cfg_attr(kani, kani::stub(core::hint::spin_loop, spin_nop))]
 #[cfg_attr(kani, kani::unwind(10))]
 pub(crate) fn l1_node_get() {
     let len = nd::below(3) as usize;
@@ -327,8 +330,9 @@ pub(crate) fn l1_node_get() {
 // check_cooldown: ensures in_use' == UNUSED iff in_use == COOLDOWN and active_writers == 0,
 //                 otherwise unchanged; never touches active_writers or slots.
 // reserve_writer: active_writers + 1 while the reservation lives, restored on drop.
-// @harness name=l1_node_cooldown props=C11,C13 tier=quick flavour=nostd fn=Node::start_cooldown+Node::check_cooldown+Node::reserve_writer+NodeReservation::drop
+// @harness name=l1_node_cooldown props=C11,C13,C09 tier=quick flavour=nostd fn=Node::start_cooldown+Node::check_cooldown+Node::reserve_writer+NodeReservation::drop
 #[cfg_attr(kani, kani::proof)]
+#[cfg_attr(kani, kani::stub(core::hint::spin_loop, spin_nop))]
 #[cfg_attr(kani, kani::unwind(10))]
 pub(crate) fn l1_node_cooldown() {
     let n = Node::get();
